@@ -64,8 +64,12 @@ def printer_tasks(tier):
     for m in tokens.METHODS:
         ts.append(Task('tokens.%s' % m, 'contracts.tokens:task_method', method=m))
     ts.append(Task('tokens.callsites', 'contracts.tokens:task_callsites'))
+    ts.append(Task('printer.FormattedValue.is_curly', 'contracts.printer:task_is_curly'))
     ts.append(Task('standin.enum_print.depth2', 'contracts.printer:task_standin', standin='enum_print depth 2', script='enum_print.py',
                    args=['--depth', '2'], bound='every (slot, child kind) pair of spec/astlib.py, nesting depth 2, strict re-parse'))
+    ts.append(Task('standin.fstring_curly', 'contracts.printer:task_standin', standin='f-string field opening', script='fstring_curly.py',
+                   args=['--depth', '2' if tier == 'quick' else '3'],
+                   bound='6 brace-opening displays under every chain (depth 2 quick / 3 thorough) of 24 left-most wrappers x 3 field endings; strict re-parse'))
     ts.append(Task('standin.literal_pool', 'contracts.printer:task_standin', standin='literal pool', script='literal_pool.py', args=[],
                    bound='constants of every type plus 7 mantissas (1 to 17 significant digits) in each of 65 decades x 19 token contexts, and 39 parsed sources; strict re-parse'))
     if tier == 'thorough':
@@ -88,12 +92,21 @@ prop('C02', 'Printed source re-parses to exactly the same syntax tree', 'other',
                  'every child print event is either parenthesised or sits at a grammar level the slot accepts (all operators, all '
                  'child classes, any depth; z3 over enum tags and Real levels). Constants reach the TokenPrinter method of their own '
                  'type. Level "other": the grammar oracle is hand-written and f-string/float text is covered by bounded stand-ins only.')
-prop('C08', 'Every compilable module is minified without error into a compilable module', 'other', printer_tasks,
-     ['C08/', 'C02/L2/', 'C02/L1/'], replay='props.replay_printer:replay_printer', trusted=PRINTER_TRUST,
+def c08_tasks(tier):
+    # the printed text compiles only if the names handed out by the renamer do not collide (duplicate parameter, parameter declared global ...)
+    return printer_tasks(tier) + [Task('renamer.name_assigner', 'contracts.renamer:task_name_assigner'),
+                                  Task('renamer.reservation_scope', 'contracts.renamer:task_reservation_scope'),
+                                  sweep('compile', tier, 'C08')]
+
+
+prop('C08', 'Every compilable module is minified without error into a compilable module', 'other', c08_tasks,
+     ['C08/', 'C02/L2/', 'C02/L1/', 'C03/NameAssigner', 'C03/reservation_scope', 'C03/reserve_name'], replay='props.replay_rename:replay_c08', trusted=PRINTER_TRUST,
      explanation='Partial: exception-freedom of every printer method for a symbolic node of its class (no-exception obligations), totality '
                  'of every class/operator dispatch table of the running interpreter, and the L2 obligations that make the printed text '
-                 'parse (so the internal UnstableMinification check cannot fire for the covered part). Code outside the printers is '
-                 'covered by the other groups; whole-package termination/memory are not decided.')
+                 'parse (so the internal UnstableMinification check cannot fire for the covered part); the name-assignment obligations of the '
+                 'renamer (every kept or reserved name is blocked in the whole reservation scope before any new name is chosen, a new name is one '
+                 'found free in that scope) because colliding names give duplicate-parameter / global-parameter SyntaxErrors. Code outside these '
+                 'is covered by the other groups; whole-package termination/memory are not decided.')
 
 
 def generic_standin(name, script, args, bound):
@@ -198,7 +211,7 @@ def sweep(only, tier, label):
 def renamer_tasks(tier):
     ts = [Task('scopes.add_parent', 'contracts.scopes:task_add_parent'), Task('scopes.arguments', 'contracts.scopes:task_arguments'),
           Task('scopes.namedexpr', 'contracts.scopes:task_namedexpr')]
-    for t in ('arg_rename_in_place', 'namebinding_init', 'binder_get_binding', 'resolve_get_binding', 'namebinding_rename', 'name_assigner', 'allow_rename',
+    for t in ('arg_rename_in_place', 'namebinding_init', 'binder_get_binding', 'resolve_get_binding', 'namebinding_rename', 'name_assigner', 'reservation_scope', 'allow_rename',
               'taint_alias'):
         ts.append(Task('renamer.' + t, 'contracts.renamer:task_' + t))
     for t in ('hoist_visitors', 'hoisted_value', 'insert', 'placement', 'cost_model'):
@@ -267,11 +280,11 @@ prop('C11', 'Output depends only on source, options and interpreter version', 'p
                  'extending them (symbolic execution, contracts/pipeline.py). No schedule is executed: thread independence follows from the write frame.')
 prop('C16', 'Shebang, source encoding and line endings are handled faithfully', 'other',
      lambda tier: [Task('shebang.find', 'contracts.shebang:task_find_shebang'), Task('pipeline.minify', 'contracts.pipeline:task_minify'),
-                   Task('cli.do_minify', 'contracts.cli:task_do_minify'), Task('tokens.stringliteral', 'contracts.tokens:task_method', method='stringliteral'),
+                   Task('cli.do_minify', 'contracts.cli:task_do_minify'), Task('cli.main', 'contracts.cli:task_main'), Task('tokens.stringliteral', 'contracts.tokens:task_method', method='stringliteral'),
                    Task('tokens.bytesliteral', 'contracts.tokens:task_method', method='bytesliteral'),
                    generic_standin('encoding sweep', 'encoding_sweep.py', [], '4 programs x 7 encodings/cookies/BOM x 3 line endings x 14 shebang lines x preserve on/off, API on bytes and '
                                    'text, and the CLI on a subset')],
-     ['C16/', 'C13/do_minify/returns-utf8', 'C02/L3/TokenPrinter.stringliteral', 'C02/L3/TokenPrinter.bytesliteral'], replay='props.replay_rename:replay_encoding',
+     ['C16/', 'C13/do_minify/returns-utf8', 'C14/main/output-is-minified-or-original-source', 'C02/L3/TokenPrinter.stringliteral', 'C02/L3/TokenPrinter.bytesliteral'], replay='props.replay_rename:replay_encoding',
      trusted=['decoding of bytes sources (cookie / BOM) happens inside ast.parse (external)', 'regex fragment translation in contracts/shebang.py'],
      explanation='_find_shebang: with the pattern text of the real source translated to a z3 regular expression, the result is proved to be exactly the first source line '
                  '(starts with #!, contains no CR or LF, followed by a terminator or the end) or None; minify() re-attaches it exactly when preserve_shebang is True '
